@@ -616,3 +616,176 @@ func lowerGuard(info *types.Info, fd *ast.FuncDecl, pos token.Pos, v types.Objec
 	visit(fd.Body.List)
 	return bound, found
 }
+
+// ---------------------------------------------------------------------------------------
+// K8 — subtractive indices. `s[v-c]` (c a positive constant) panics for v < c. In the
+// unguarded region every such index of a slice, array or string must be preceded, on every
+// path, by what makes v >= c: a test of v (in any spelling: an enclosing if, an else branch,
+// an earlier guard clause, a clause of a tagless switch), for v = len(x) the test of that
+// length, or for a counter that starts at a constant and is only incremented, its start value
+// sharpened by a failed equality test. Upper bounds are not examined.
+func subtractiveIndexRule(p *core.Program, r *core.Report, region map[string]bool) {
+	n := 0
+	for _, rel := range []string{"", "parser", "parser/lexer", "checker", "conf", "optimizer", "file", "ast"} {
+		pk := p.Pkg(rel)
+		if pk == nil {
+			continue
+		}
+		info := pk.TypesInfo
+		for _, fd := range p.FuncDecls(rel) {
+			if fd.Body == nil {
+				continue
+			}
+			fname := core.FuncName(rel, fd)
+			if !region[fname] && rel != "parser/lexer" && rel != "parser" && rel != "file" {
+				continue
+			}
+			ld := eng.SingleDefs(info, fd.Body)
+			k := 0
+			ast.Inspect(fd.Body, func(nd ast.Node) bool {
+				ix, ok := nd.(*ast.IndexExpr)
+				if !ok {
+					return true
+				}
+				switch info.TypeOf(ix.X).Underlying().(type) {
+				case *types.Slice, *types.Array, *types.Basic, *types.Pointer:
+				default:
+					return true // maps and type parameters: no bounds
+				}
+				b, ok := eng.Unparen(ix.Index).(*ast.BinaryExpr)
+				if !ok || b.Op != token.SUB {
+					return true
+				}
+				ct, ok := info.Types[b.Y]
+				if !ok || ct.Value == nil {
+					return true
+				}
+				c, ok := constInt(ct)
+				if !ok || c < 1 {
+					return true
+				}
+				if tv, isC := info.Types[b.X]; isC && tv.Value != nil {
+					return true
+				}
+				k++
+				n++
+				key := fmt.Sprintf("%s/index %s#%d is not negative", fname, eng.ExprStr(ix.Index), k)
+				lb, why := lowerBoundAt(info, ld, fd, b.X, ix)
+				best := fmt.Sprintf("best known: >= %d", lb)
+				if lb < -1<<40 {
+					best = "no lower bound known"
+				}
+				r.Check(lb >= c, "R4.3", key, p.Pos(ix.Pos()), fmt.Sprintf("%s >= %d: %s", eng.ExprStr(b.X), lb, why),
+					fmt.Sprintf("`%s` in the unguarded region: nothing on the way establishes %s >= %d (%s; %s): for a smaller value the index is negative and the access panics outside every recover", eng.ExprStr(ix), eng.ExprStr(b.X), c, best, why))
+				return true
+			})
+		}
+	}
+	r.Analysed["subtractive_indices_examined"] = n
+}
+
+// lowerBoundAt: the best lower bound of the integer expression v that the structure of fd
+// establishes at node `at` (math.MinInt64 = none).
+func lowerBoundAt(info *types.Info, ld *eng.LocalDefs, fd *ast.FuncDecl, v ast.Expr, at ast.Node) (int64, string) {
+	const none = int64(-1 << 62)
+	lb, why := none, "no test of it dominates the access"
+	vs := eng.ExprStr(eng.Unparen(v))
+	isV := func(x ast.Expr) bool { return eng.ExprStr(eng.Unparen(x)) == vs }
+	raise := func(b int64, w string) {
+		if b > lb {
+			lb, why = b, w
+		}
+	}
+	// what v is
+	res := ld.Resolve(v)
+	if c, ok := res.(*ast.CallExpr); ok && (isBuiltinCall(info, c, "len") || isBuiltinCall(info, c, "cap")) {
+		raise(0, "a length")
+	}
+	var ne []int64
+	if id, ok := eng.Unparen(v).(*ast.Ident); ok {
+		// a counter: one constant initialisation, otherwise only ++
+		obj := info.Uses[id]
+		inits, other := []int64{}, false
+		ast.Inspect(fd.Body, func(n ast.Node) bool {
+			switch s := n.(type) {
+			case *ast.AssignStmt:
+				for i, l := range s.Lhs {
+					if lid, ok := l.(*ast.Ident); ok && objOf(info, lid) == obj {
+						if len(s.Lhs) == len(s.Rhs) && (s.Tok == token.DEFINE || s.Tok == token.ASSIGN) {
+							if tv, ok := info.Types[s.Rhs[i]]; ok && tv.Value != nil {
+								if c, ok := constInt(tv); ok {
+									inits = append(inits, c)
+									continue
+								}
+							}
+						}
+						other = true
+					}
+				}
+			case *ast.ValueSpec:
+				for i, nm := range s.Names {
+					if info.Defs[nm] == obj {
+						if i < len(s.Values) {
+							if tv, ok := info.Types[s.Values[i]]; ok && tv.Value != nil {
+								if c, ok := constInt(tv); ok {
+									inits = append(inits, c)
+									continue
+								}
+							}
+							other = true
+						} else {
+							inits = append(inits, 0)
+						}
+					}
+				}
+			case *ast.IncDecStmt:
+				if lid, ok := s.X.(*ast.Ident); ok && objOf(info, lid) == obj && s.Tok == token.DEC {
+					other = true
+				}
+			case *ast.UnaryExpr:
+				if s.Op == token.AND {
+					if lid, ok := s.X.(*ast.Ident); ok && objOf(info, lid) == obj {
+						other = true
+					}
+				}
+			}
+			return true
+		})
+		if len(inits) == 1 && !other {
+			raise(inits[0], "starts at "+fmt.Sprint(inits[0])+" and is only incremented")
+		}
+	}
+	for _, f := range eng.FactsAt(fd.Body, at) {
+		_, other, op, ok := eng.CmpOn(f, isV)
+		if !ok {
+			continue
+		}
+		tv, isC := info.Types[other]
+		if !isC || tv.Value == nil {
+			continue
+		}
+		c, ok := constInt(tv)
+		if !ok {
+			continue
+		}
+		switch op {
+		case token.GTR:
+			raise(c+1, "`"+eng.ExprStr(f)+"` holds here")
+		case token.GEQ, token.EQL:
+			raise(c, "`"+eng.ExprStr(f)+"` holds here")
+		case token.NEQ:
+			ne = append(ne, c)
+		}
+	}
+	for changed := true; changed; {
+		changed = false
+		for _, c := range ne {
+			if c == lb {
+				lb++
+				why += fmt.Sprintf(", and it is not %d", c)
+				changed = true
+			}
+		}
+	}
+	return lb, why
+}
